@@ -325,6 +325,76 @@ fn crafted_nonadjacent(rng: &mut Rng, tr: &ExtendedHeader, ps: &[Party], un: &Ex
     (u, tag)
 }
 
+/// replace `un`'s commit entries by validly signed entries of the given (flag, signer) list
+fn with_entries(rng: &mut Rng, tr: &ExtendedHeader, un: &ExtendedHeader, ents: &[(u8, Party)]) -> ExtendedHeader {
+    let mut u = un.clone();
+    let t0 = u.header.time.unix_timestamp_nanos();
+    u.commit.signatures = ents
+        .iter()
+        .map(|(f, p)| {
+            let validator_address = tendermint::account::Id::new(p.val.addr.clone().try_into().unwrap());
+            let timestamp = time_of(t0 + rng.below(1_000_000) as i128);
+            match f {
+                0 => CommitSig::BlockIdFlagAbsent,
+                1 => CommitSig::BlockIdFlagNil { validator_address, timestamp, signature: None },
+                _ => CommitSig::BlockIdFlagCommit { validator_address, timestamp, signature: None },
+            }
+        })
+        .collect();
+    let ch = tr.chain_id().clone();
+    for (j, (f, p)) in ents.iter().enumerate() {
+        if *f != 0 {
+            sign_entry(&mut u.commit, &ch, j, &p.key);
+        }
+    }
+    u
+}
+
+/// non-adjacent verification against trusted sets of fixed shapes, with untrusted commits in which
+/// validators appear several times (`multiplicity_plans`): `verify`, `verify_range` with the crafted
+/// header first, `verify_adjacent` (always not-adjacent)
+fn gen_multiplicity_ops(rng: &mut Rng, out: &mut Emitter) {
+    let chain = "private";
+    for shape in multiplicity_power_shapes(rng) {
+        let parties: Vec<Party> = shape.iter().map(|&p| new_party(rng, p)).collect();
+        let (ps, set) = set_of_parties(&parties);
+        // the untrusted header's own set: the strangers plus some of the trusted validators
+        let strangers = [new_party(rng, 3), new_party(rng, 5)];
+        let mut own: Vec<Party> = strangers.to_vec();
+        own.extend(ps.iter().take(ps.len() / 2).cloned());
+        let (ops_, oset) = set_of_parties(&own);
+        let h = rng.range(2, 100_000);
+        let lbi = Some(BlockId { hash: h32(rng), part_set_header: parts::Header::new(1, h32(rng)).unwrap() });
+        let t0 = NOW - 1000 * SEC;
+        let tr = make_header(rng, chain, h, t0, 1, lbi, &ps, &set, &set, empty_dah(), &|_| true);
+        let gap = rng.range(2, 50);
+        let un0 = make_header(rng, chain, h + gap, t0 + (gap as i128) * SEC, 1, lbi, &ops_, &oset, &oset, empty_dah(), &|_| true);
+        let un1 = make_header(rng, chain, h + gap + 1, t0 + (gap as i128 + 1) * SEC, 1, Some(un0.commit.block_id), &ops_, &oset, &oset, empty_dah(), &|_| true);
+        let powers: Vec<u64> = ps.iter().map(|p| p.val.power).collect();
+        let total = set.total_voting_power().value();
+        for (slots, tag) in multiplicity_plans(rng, &powers, total, 1, 3) {
+            let ents: Vec<(u8, Party)> = slots
+                .iter()
+                .map(|s| match s {
+                    Slot::Trusted(i) => (2u8, ps[*i].clone()),
+                    Slot::Stranger(k) => (2u8, strangers[*k].clone()),
+                    Slot::Absent => (0u8, strangers[0].clone()),
+                    Slot::NilOf(i) => (1u8, ps[*i].clone()),
+                })
+                .collect();
+            let u = with_entries(rng, &tr, &un0, &ents);
+            out.op(pair_line("verify", &tr, &u), &format!("verify/nonadj/{tag}"), true);
+            // as the first element of a range; the second links to it (same hash: verify* does not
+            // recompute hashes and the commit's block id is untouched)
+            out.op(range_line("verify_range", &[tr.clone(), u.clone(), un1.clone()]), &format!("verify_range/{tag}"), true);
+            if rng.chance(1, 4) {
+                out.op(pair_line("verify_adjacent", &tr, &u), &format!("verify_adjacent/{tag}"), true);
+                out.op(range_line("verify_adjacent_range", &[tr.clone(), u.clone()]), &format!("verify_adjacent_range/{tag}"), true);
+            }
+        }
+    }
+}
+
 fn gen_chain_ops(rng: &mut Rng, out: &mut Emitter, tier: Tier) {
     let chain = *rng.pick(&["private", "celestia", "mocha-4"]);
     let start = *rng.pick(&[1u64, 2, 5, 1000, 123_456]);
@@ -438,7 +508,9 @@ impl Prop for C02 {
          (height equal/lower/skip, chain id, time equal / ±1 ns / earlier, time at now+10 s ± 1 s, ± 5 s, +60 s, parent hash changed / None / empty, \
          validators hash, trusted next-validators hash, trusted hash) on an adjacent and on a non-adjacent pair; non-adjacent untrusted commits \
          crafted against the trusted set at the exact 1/3 boundary and one validator above, with strangers, forged signatures, double votes, \
-         missing signatures; verify_range / verify_adjacent_range / VerifiedExtendedHeaders::try_from on honest sub-ranges, empty ranges, first \
+         missing signatures; trusted sets of fixed shapes (4/8/3/6 equal powers, …) against untrusted commits in which a validator appears \
+         several times: repeated power above 1/3 while the distinct trusted power is at/below 1/3, repeats last/first/scattered, repeated strangers \
+         that are in the untrusted header's own set only, repeats after/before the early exit (verify and verify_range with that header first); verify_range / verify_adjacent_range / VerifiedExtendedHeaders::try_from on honest sub-ranges, empty ranges, first \
          element not adjacent, skipped height, reordered, duplicated, the empty Vec (try_from only; every `verified` op also runs the slice constructor \
          and compares verdict and content), forks spliced in from any height (matching and mismatching parent), \
          perturbed middle element.  Non-trivial = all generated cases (reordering that swaps an element with itself excluded); distinct = distinct (op, result) lines."
@@ -447,6 +519,9 @@ impl Prop for C02 {
         let chains = if tier == Tier::Thorough { 300 } else { 14 };
         for _ in 0..chains {
             gen_chain_ops(rng, out, tier);
+        }
+        for _ in 0..(if tier == Tier::Thorough { 30 } else { 2 }) {
+            gen_multiplicity_ops(rng, out);
         }
     }
     fn run(&mut self, line: &str) -> String {
